@@ -84,6 +84,10 @@ fn victims() -> Vec<(&'static str, Op, bool)> {
         ("write_streamed_commit", w(Some(0), WEntry::Opts, Declare::None, vec![7, 9]), false),
         ("write_streamed_declared_mmap", w(Some(0), WEntry::Opts, Declare::Exact, vec![10]), false),
         ("overwrite_keyed", w(Some(1), WEntry::OneShot, Declare::None, vec![]), true),
+        // fewer bytes than declared (the commit is rejected anyway): whatever cleaning up the
+        // writer does may fail too
+        ("write_short_of_declared_mmap", w(Some(0), WEntry::Opts, Declare::Off(40), vec![10]), false),
+        ("write_hash_short_of_declared", w(None, WEntry::Opts, Declare::Off(4096), vec![5, 5]), false),
         ("read", Op::Read { key: 1 }, true),
         ("read_hash", Op::ReadHash { addr: a }, true),
         ("stream_check", Op::Stream { by: By::Key(1), bufs: vec![5, 100] }, true),
